@@ -477,6 +477,11 @@ func main() {
 		}()
 		prog, err := an.Load(*repo)
 		if err != nil {
+			// once more: a load that loses a build-cache entry to a concurrent clean-up fails once
+			time.Sleep(2 * time.Second)
+			prog, err = an.Load(*repo)
+		}
+		if err != nil {
 			fmt.Println("LOAD FAILED:", err)
 			fmt.Printf("VIOLATION property=%s replay=%s\n", *prop, "load-failed")
 			code = 1
